@@ -14,6 +14,42 @@ A model of the vendored JSON library for the JSON that ovni metadata uses:
 
 Strings and texts are lists of byte values (`List Nat`), as everywhere else.
 
+What parson does, as transcribed (each point is exercised by the fixed corpus
+of `checks/json_lib.py` against the real `src/parson.c`):
+
+* **comments** — two passes of `remove_comments` (`/* */`, then `//` to end of
+  line) that blank the comment and track strings with their own `in_string` /
+  `escaped` flags: comment markers inside a string are kept; a `"` or a `/*`
+  inside a *line* comment is seen by the first pass (which scans line comments as
+  code) and hides or opens a block comment; an unterminated comment blanks only
+  its start token.
+* **white space** — `isspace` (space, `\t \n \v \f \r`).
+* **strings** — `skip_quotes` to the closing quote, then `process_string`: the
+  escapes `\" \\ \/ \b \f \n \r \t \uXXXX` (upper or lower case hex), surrogate
+  pairs combined to 4-byte UTF-8, a lone or reversed surrogate refused, a raw byte
+  below 0x20 refused, any other escape refused.  UTF-8 is **not** validated by the
+  parser (bytes ≥ 0x80 pass through); it is validated by `json_value_init_string`
+  (`validUtf8`), i.e. when libovni stores a string.  `\u0000` is accepted in a
+  value (the string then has an embedded NUL: `getString` = what a `char *` reader
+  sees, `getStringFull` = the stored bytes) and refused in a name.
+* **numbers** — see below; leading zeros (`01`, `-00`, also `0e1`) and hexadecimal
+  are refused by `is_decimal`, `-inf` / `-nan` by `json_value_init_number`; a `-`
+  that starts no number converts nothing and yields **0 without consuming** (the
+  document `-x` is the number 0; inside a container the next delimiter test fails).
+* **literals** — `strncmp` with `true`, `false`, `null` (`nullx` = `null` then `x`).
+* **nesting** — `parse_value(nesting)` fails for `nesting > MAX_NESTING` = 2048
+  (2048 nested containers around a scalar are accepted, an *empty* container may
+  sit one level deeper).
+* **duplicate names** — `json_object_add` refuses a name that is already there:
+  the whole parse fails.
+* **after the root value** — nothing is checked: `{"a":1}}garbage` is accepted.
+* **NUL** — the text ends at the first NUL byte (C string); an empty text fails.
+* **BOM** — not skipped by `json_parse_string_with_comments` (only by `json_parse_string`).
+* **dotted names** — split at every `.`; empty segments are names like any other.
+* **serializer** — 4-space indentation, `": "`, every `/` written `\/`, control
+  characters `\b \f \n \r \t` or `\u00xx` (lower case), bytes ≥ 0x80 raw, numbers
+  `%1.17g`.
+
 Numbers.  parson stores a `double` obtained from `strtod` after its own
 `is_decimal` pre-check.  The model stores a number as the dyadic rational
 `n / 2^k` (`Json.number n k`, `k = 0` or `n` odd) and follows `strtod`'s decimal
